@@ -176,7 +176,8 @@ def run(spec, order, min_conf, max_depth, upgrade_at=None):
                           'seed_conf': seed_conf, 'related': sorted([k, v] for k, v in inst.get_related_concepts().items()),
                           'names': sorted([k, v] for k, v in inst.get_concept_names().items())})
         taints = sorted([n.id, n.taint] for n in nodes)
-        taint_checks = [[[f2q(c) for c in n.seed_confidences.values()], n.taint] for n in nodes if len(n.seed_confidences) != 1 or True]
+        # per node: its seed confidences in the order the seeds were mined (dict order), its taint, whether it was a seed
+        taint_checks = [[[f2q(c) for c in n.seed_confidences.values()], n.taint, n.id in kb.concept_collection.concepts] for n in nodes]
         covered = {nid for inst in kb.concept_collection.concepts.values() for a in inst.attributes for nid in a.nodes}
         uncovered = sorted(n.id for n in nodes if n.id not in covered)
         j1 = kb.to_json()
@@ -215,7 +216,7 @@ class C20(Property):
     title = 'Concept mining terminates with well-formed, covering, serializable results'
     design_ref = 'DESIGN.md section 10, C20'
     required_theorems = (
-        'noisyOr_unit', 'noisyOr_ge_each', 'attribute_meets_minimum', 'taintOf_unit', 'dijkstra_unit', 'relatedStep_unit',
+        'noisyOr_unit', 'noisyOr_ge_each', 'attribute_meets_minimum', 'taintOf_unit', 'taintHistory_unit', 'taintHistory_mono', 'dijkstra_unit', 'relatedStep_unit',
         'round_decreases', 'rounds_bounded', 'universals_exact', 'tenth_unit',
     )
     level_text = ('PARTIAL. Lean 4 theorems over the confidence arithmetic of the miner on exact rationals: every noisy-or '
@@ -263,6 +264,7 @@ class C20(Property):
             return r
         # what is compared with the model: the arithmetic on the real values (rounded) and the universals
         return {'skipped': False, 'outcome': 'ok', 'noisy': [round(c[1], 9) for c in r['noisy_checks']],
+                'taint': [round(c[1], 9) for c in r['taint_checks']],
                 'taint_ok': self.taint_consistent(r), 'universals': r['universals'], 'detail': r}
 
     @staticmethod
@@ -291,7 +293,8 @@ class C20(Property):
                 evs = [ev for k, ev in enumerate(ordered) if ev['type'] == e['name'] and
                        ((up is not None and k >= up) if phase == 1 else (up is None or k < up))]
                 reqs.append({'op': 'miner', 'noisy': [], 'taint': [], 'rels': rels, 'events': evs})
-        reqs.append({'op': 'miner', 'noisy': [c[0] for c in r['noisy_checks']], 'taint': [], 'rels': [], 'events': []})
+        reqs.append({'op': 'miner', 'noisy': [c[0] for c in r['noisy_checks']], 'taint': [c[0] for c in r['taint_checks']],
+                     'seeds': [bool(c[2]) for c in r['taint_checks']], 'rels': [], 'events': []})
         return reqs
 
     def predict(self, case, replies):
@@ -302,7 +305,8 @@ class C20(Property):
             for k in uni:
                 uni[k] |= {tuple(x) for x in rep[k]}
         noisy = [round(float(Fraction(int(n), int(d))), 9) for n, d in replies[-1]['noisy']]
-        return {'skipped': False, 'outcome': 'ok', 'noisy': noisy, 'taint_ok': True,
+        taint = [round(float(Fraction(int(n), int(d))), 9) for n, d in replies[-1]['taintHistory']]
+        return {'skipped': False, 'outcome': 'ok', 'noisy': noisy, 'taint': taint, 'taint_ok': True,
                 'universals': {k: sorted(list(x) for x in v) for k, v in uni.items()}, 'detail': 'undecided'}
 
     def fill_undecided(self, case, obs, pred):
@@ -314,6 +318,9 @@ class C20(Property):
         po, pn = obs.get('noisy'), pred.get('noisy')
         if isinstance(po, list) and isinstance(pn, list) and len(po) == len(pn):
             pred['noisy'] = [o if abs(o - n) <= 2e-9 else n for o, n in zip(po, pn)]
+        po, pn = obs.get('taint'), pred.get('taint')
+        if isinstance(po, list) and isinstance(pn, list) and len(po) == len(pn):
+            pred['taint'] = [o if abs(o - n) <= 2e-9 else n for o, n in zip(po, pn)]
         return pred
 
     def oracle(self, case, obs):
